@@ -415,3 +415,39 @@ package rueidis
 //@   ensures [C30 a-learned-sha-is-kept] old(s.sha1) != "" ==> s.sha1 == old(s.sha1)
 //@   loop 0: invariant [C30] 0 <= i && i <= len(resp) && len(resp) == len(multi)
 //@   loop 1: invariant [C30] rangeindex >= -1 && rangeindex < len(multi) && len(cmds) == rangeindex + 1 && (old(s.sha1) != "" ==> s.sha1 == old(s.sha1))
+
+// ---------------------------------------------------------------------------------------------
+// C46 — Scanner (helper.go). The page loop is specified through ghost call counters: calls(next) / calls(yield) are the
+// numbers of page requests / of pages handed to the consumer so far in this run of the iterator.
+//  - the first request asks for cursor 0; every later request asks for exactly the cursor the previous page returned,
+//    and is made only if that page arrived without error, was handed to the consumer, the consumer wanted more and the
+//    cursor was not 0;
+//  - every page that arrived without error is handed to the consumer (its Elements, unchanged) before anything else happens;
+//  - the loop ends only because a page failed (the error is then in s.err, which Err returns), the consumer stopped, or
+//    the server returned cursor 0.
+// a Scanner's fields are unexported: only the page loop writes err, only NewScanner sets next (a consumer callback cannot)
+//@ immutable [C46] Scanner err writers=Scanner.scan$1
+//@ immutable [C46] Scanner next
+//@ func Scanner.scan$1
+//@   modifies *
+//@   assert [C46 first-request-cursor-zero-later-requests-follow-the-returned-cursor] at next: (calls(next) == 0 ==> arg0 == 0) && (calls(next) >= 1 ==> (arg0 == e.Cursor && e.Cursor != 0 && s.err == nil && returned(yield) && calls(yield) == calls(next)))
+//@   assert [C46 every-fetched-page-is-yielded-unchanged] at yield: arg0 == e.Elements && s.err == nil && calls(yield) + 1 == calls(next)
+//@   ensures [C46 stops-only-on-error-consumer-stop-or-cursor-zero where-defined] calls(next) >= 1 && (s.err != nil || (calls(yield) == calls(next) && (!returned(yield) || e.Cursor == 0)))
+//@   ensures [C46 a-failed-page-is-not-yielded where-defined] s.err != nil ==> calls(yield) + 1 == calls(next)
+//@   loop 0: invariant [C46] calls(next) >= 1 && calls(yield) + 1 == calls(next)
+
+//@ func Scanner.Err
+//@   ensures [C46 err-exposes-the-page-error] result == s.err
+
+// the bodies the compiler builds for `for vs := range s.scan()`: one page in, its elements out in order
+//@ func Scanner.Iter$1$1
+//@   modifies *
+//@   assert [C46 elements-in-page-order-each-once] at yield: arg0 == vs[rangeindex + 1] && calls(yield) == rangeindex + 1
+//@   ensures [C46 whole-page-unless-the-consumer-stops where-defined] (result ==> calls(yield) == len(vs)) && (!result ==> !returned(yield))
+//@   loop 0: invariant [C46] rangeindex >= -1 && calls(yield) == rangeindex + 1 && rangeindex < len(vs)
+
+//@ func Scanner.Iter2$1$1
+//@   modifies *
+//@   assert [C46 consecutive-pairs-of-the-same-page] at yield: arg0 == vs[i] && arg1 == vs[i + 1] && i == 2 * calls(yield)
+//@   ensures [C46 every-complete-pair-unless-the-consumer-stops where-defined] (result ==> 2 * calls(yield) + 1 >= len(vs)) && (!result ==> !returned(yield))
+//@   loop 0: invariant [C46] i >= 0 && i == 2 * calls(yield)
